@@ -357,3 +357,16 @@ func yearExtensionRule(p *Prog, r *Report, rule string) {
 	}
 	r.Ob("extension:path", pos, okP, fmt.Sprintf("the per-year weather path is the configured stem followed by the extension of the requested year: %v", okP))
 }
+
+// exprInt64: the value of an integer constant expression.
+func exprInt64(info *types.Info, e ast.Expr) (int64, bool) {
+	tv, ok := info.Types[e]
+	if !ok || tv.Value == nil {
+		return 0, false
+	}
+	v := constant.ToInt(tv.Value)
+	if v.Kind() != constant.Int {
+		return 0, false
+	}
+	return constant.Int64Val(v)
+}
